@@ -30,59 +30,80 @@ theorem C22_at_most_one (e : Env) (s : St) (f : F) (h : f.resend = true) :
 
 /-! ### the retransmission goroutine after `Stop`
 
-`select { case <-ticker.C: send; case <-stop: return }` with a ticker channel of capacity one.
-State: whether a tick is buffered, whether `stop` is closed, whether the goroutine has returned.
-Schedule steps: `tick` (the ticker fires), `stop`, `run` with the branch the runtime picks.
-Real-time assumption (named): after `Stop` no NEW tick becomes ready between two consecutive
-evaluations of the select (an evaluation takes microseconds, the interval is 10 s). -/
+`select { case <-ticker.C: (stop closed? return) send; case <-stop: return }` with a ticker channel of
+capacity one.  A send takes time (`beginSend` … `endSend`); ticks arrive WHENEVER the ticker fires — also
+after `Stop`, also while a send is in flight (the first model assumed "no new tick becomes ready after Stop
+between two evaluations of the select": false as soon as a send lasts longer than the interval — a Lightning
+node that answers slowly — and the real code then started further copies with probability 1/2 each; found
+by a reviewing sub-agent, repaired in /repo: the tick branch looks at `stop` first).  `checkStop = false` is
+the code before the repair. -/
 
 structure G where
-  buffered : Bool
+  buffered : Bool       -- a tick is waiting in the ticker channel
   stopped : Bool
   exited : Bool
-  sentAfterStop : Nat
+  inflight : Bool       -- a send has started and not returned
+  startedAfterStop : Nat
+  finishedAfterStop : Nat
   deriving DecidableEq, Repr
 
 inductive Step where
-  | tick | stop | runTick | runStop
+  | tick | stop | runTick | runStop | endSend
   deriving DecidableEq, Repr
 
-def gstep (g : G) : Step → G
-  | .tick => if g.stopped then g else { g with buffered := true }     -- real-time assumption
+def gstep (checkStop : Bool) (g : G) : Step → G
+  | .tick => { g with buffered := true }                       -- no real-time assumption
   | .stop => { g with stopped := true }
-  | .runTick => if !g.exited && g.buffered then
-      { g with buffered := false, sentAfterStop := g.sentAfterStop + (if g.stopped then 1 else 0) } else g
-  | .runStop => if !g.exited && g.stopped then { g with exited := true } else g
+  | .runTick =>                                                -- the select takes the tick branch
+      if !g.exited && !g.inflight && g.buffered then
+        if checkStop && g.stopped then { g with buffered := false, exited := true }
+        else { g with buffered := false, inflight := true,
+                      startedAfterStop := g.startedAfterStop + (if g.stopped then 1 else 0) }
+      else g
+  | .runStop => if !g.exited && !g.inflight && g.stopped then { g with exited := true } else g
+  | .endSend => if g.inflight then
+      { g with inflight := false, finishedAfterStop := g.finishedAfterStop + (if g.stopped then 1 else 0) } else g
 
-def grun (g : G) (sched : List Step) : G := sched.foldl gstep g
+def grun (checkStop : Bool) (g : G) (sched : List Step) : G := sched.foldl (gstep checkStop) g
+
+def g0 : G := ⟨false, false, false, false, 0, 0⟩
 
 def Inv (g : G) : Prop :=
-  (g.stopped = false ∧ g.sentAfterStop = 0) ∨
-  (g.stopped = true ∧ g.sentAfterStop + (if g.buffered then 1 else 0) ≤ 1)
+  g.startedAfterStop = 0 ∧
+  ((g.stopped = false ∧ g.finishedAfterStop = 0) ∨
+   (g.stopped = true ∧ g.finishedAfterStop + (if g.inflight then 1 else 0) ≤ 1))
 
-theorem inv_step (g : G) (s : Step) (h : Inv g) : Inv (gstep g s) := by
-  obtain ⟨b, st, ex, n⟩ := g
+theorem inv_step (g : G) (s : Step) (h : Inv g) : Inv (gstep true g s) := by
+  obtain ⟨b, st, ex, fl, n, m⟩ := g
   unfold Inv at *
-  cases s <;> cases b <;> cases st <;> cases ex <;> simp [gstep] at h ⊢ <;> omega
+  cases s <;> cases b <;> cases st <;> cases ex <;> cases fl <;> simp [gstep] at h ⊢ <;> omega
 
-theorem inv_run (sched : List Step) (g : G) (h : Inv g) : Inv (grun g sched) := by
+theorem inv_run (sched : List Step) (g : G) (h : Inv g) : Inv (grun true g sched) := by
   induction sched generalizing g with
   | nil => exact h
   | cons s rest ih =>
     simp only [grun, List.foldl_cons]
     exact ih _ (inv_step g s h)
 
-/-- at most one copy goes out after `Stop`, on every schedule of ticks, the stop and select evaluations -/
+/-- on EVERY schedule of ticks (at any time, any number), the stop, select evaluations and send completions:
+    no copy is started after `Stop`, and at most one — the copy in flight at that moment — completes after it -/
 theorem C22_after_stop (sched : List Step) :
-    (grun ⟨false, false, false, 0⟩ sched).sentAfterStop ≤ 1 := by
-  have h := inv_run sched ⟨false, false, false, 0⟩ (Or.inl ⟨rfl, rfl⟩)
+    (grun true g0 sched).startedAfterStop = 0 ∧ (grun true g0 sched).finishedAfterStop ≤ 1 := by
+  have h := inv_run sched g0 ⟨rfl, Or.inl ⟨rfl, rfl⟩⟩
   unfold Inv at h
-  rcases h with h | h
+  refine ⟨h.1, ?_⟩
+  rcases h.2 with h | h
   · omega
   · have := h.2
     split at this <;> omega
 
-/-- and it is exactly the already-buffered tick: a schedule that sends one copy after the stop exists -/
-example : (grun ⟨false, false, false, 0⟩ [.tick, .stop, .runTick, .runStop]).sentAfterStop = 1 := by decide
+/-- the copy in flight does complete after the stop on some schedule (the bound 1 is attained) -/
+example : (grun true g0 [.tick, .runTick, .stop, .endSend, .runStop]).finishedAfterStop = 1 := by decide
+
+/-- the code before the repair: with a send that outlasts the interval, copies keep being started after the
+    stop (here two; every further `tick, endSend, runTick` adds one) -/
+theorem C22_old_select_keeps_sending :
+    (grun false g0 [.tick, .runTick, .stop, .tick, .endSend, .runTick, .tick, .endSend, .runTick]).startedAfterStop = 2 := by
+  decide
 
 end PsVerif.Props.C22
